@@ -145,6 +145,12 @@ pub fn run(tier: &str) -> Result<Report, String> {
                 rep.sample(json!({"network": b.name, "labels": desc, "history": [alpha[2].show(&ctx.user), alpha[3].show(&ctx.user)], "meaning": "batch {f2,f3}: eval_node(f2) then eval_node(f3) on the shared context; every result compared with alone / unshared / oracle"}));
             }
             run_model(&mut rep, ctx.clone(), &alpha, max_len, "collision");
+            if b.name == "con2" && desc == "mixed" {
+                // repetition patterns: every ordered list of up to 5 (6) formulae over three formulae
+                // ([A, A, B, B], [A, A, B, C, C], ...): repeating a formula repeats its result
+                let rep3: Vec<F> = [0usize, 4, 10].iter().map(|i| alpha[*i].clone()).collect();
+                run_model(&mut rep, ctx.clone(), &rep3, if tier == "quick" { 5 } else { 6 }, "repeat3");
+            }
             if tier != "quick" && b.name == "con2" && desc == "mixed" {
                 // deeper batches over a 6-formula core alphabet
                 let core: Vec<F> = [0usize, 2, 3, 7, 11, 5, 15].iter().map(|i| alpha[*i].clone()).collect();
@@ -189,6 +195,6 @@ pub fn run(tier: &str) -> Result<Report, String> {
         }
     }
     rep.set("single_formula_shared_vs_unshared_cases", json!(n_single));
-    rep.rule = "stateright BFS over the real EvalContext: initial states = every multiset of size <= max_batch_len over the collision alphabet (marked as a batch exactly as the entry points do), transitions = real eval_node on any not-yet-evaluated position, states merged by (batch, set of evaluated positions, sha256 digest of the context). In every reached state the new result must equal (BDD equality) the result of the formula evaluated alone and with sharing disabled, and the explicit-state oracle; no panic. Every ordered list of length <= max_batch_len additionally goes through model_check_multiple_extended_formulae_dirty (twice, and with an observer), model_check_multiple_extended_formulae and, for plain lists, model_check_multiple_formulae_dirty. Plus alone-vs-unshared-vs-oracle for every template formula and small extended formula. distinct_nontrivial = number of distinct context digests reached".into();
+    rep.rule = "(also: the same exploration and every ordered list of up to 5 (thorough 6) formulae over a three-formula alphabet - repetition patterns such as [A, A, B, B]) stateright BFS over the real EvalContext: initial states = every multiset of size <= max_batch_len over the collision alphabet (marked as a batch exactly as the entry points do), transitions = real eval_node on any not-yet-evaluated position, states merged by (batch, set of evaluated positions, sha256 digest of the context). In every reached state the new result must equal (BDD equality) the result of the formula evaluated alone and with sharing disabled, and the explicit-state oracle; no panic. Every ordered list of length <= max_batch_len additionally goes through model_check_multiple_extended_formulae_dirty (twice, and with an observer), model_check_multiple_extended_formulae and, for plain lists, model_check_multiple_formulae_dirty. Plus alone-vs-unshared-vs-oracle for every template formula and small extended formula. distinct_nontrivial = number of distinct context digests reached".into();
     Ok(rep)
 }
